@@ -803,6 +803,9 @@ def run_case(c):
                 want["vdims"] = {2: ["x", "y"], 3: ["x", "y", "z"], 4: ["v0", "v1", "v2", "v3"]}[fs["nvdim"]]
             corners_exact = exact and True
             bad += [b.replace("round-trip", "import") for b in same_field(want, go, corners_exact)]
+            # a corner attribute that is present is passed through verbatim, in every regime and representation
+            if ("pmin" not in removed and go["pmin"] != fo["pmin"]) or ("pmax" not in removed and go["pmax"] != fo["pmax"]):
+                bad.append("import-corners")
             if "tolerance_factor" not in removed and go["tf"] != fo["tf"]:
                 bad.append("import-tolerance")
     if plain and clearly_even and rebuildable and ("coords" in mods or "drop_coords" in mods) \
